@@ -334,11 +334,12 @@ def _hyp1f1(ctx, a_s, b_s, z, **kwargs):
                 v = ctx.hypercomb(h, [a,b], force_series=True)
                 if ctx._is_real_type(a) and ctx._is_real_type(b) and ctx._is_real_type(z):
                     v = ctx._re(v)
-                return +v
             except ctx.NoConvergence:
-                pass
+                v = None
         finally:
             ctx.prec -= magz
+        if v is not None:
+            return +v
     v = ctx.hypsum(1, 1, (atype, btype), [a, b], z, **kwargs)
     return v
 
@@ -800,11 +801,12 @@ def _hyp2f2(ctx, a_s, b_s, z, **kwargs):
                 v = ctx.hypercomb(h, [a1,a2,b1,b2], force_series=True, maxterms=4*ctx.prec)
                 if sum(ctx._is_real_type(u) for u in [a1,a2,b1,b2,z]) == 5:
                     v = ctx.re(v)
-                return v
             except ctx.NoConvergence:
-                pass
+                v = None
         finally:
             ctx.prec = orig
+        if v is not None:
+            return +v
 
     return ctx.hypsum(2, 2, (a1type, a2type, b1type, b2type), [a1, a2, b1, b2], z, **kwargs)
 
@@ -881,11 +883,12 @@ def _hyp1f2(ctx, a_s, b_s, z, **kwargs):
                 v = ctx.hypercomb(h, [a1,b1,b2], force_series=True, maxterms=4*ctx.prec)
                 if sum(ctx._is_real_type(u) for u in [a1,b1,b2,z]) == 4:
                     v = ctx.re(v)
-                return v
             except ctx.NoConvergence:
-                pass
+                v = None
         finally:
             ctx.prec = orig
+        if v is not None:
+            return +v
 
     #print "not using asymp"
     return ctx.hypsum(1, 2, (a1type, b1type, b2type), [a1, b1, b2], z, **kwargs)
@@ -966,11 +969,12 @@ def _hyp2f3(ctx, a_s, b_s, z, **kwargs):
                 v = ctx.hypercomb(h, [a1,a2,b1,b2,b3], force_series=True, maxterms=4*ctx.prec)
                 if sum(ctx._is_real_type(u) for u in [a1,a2,b1,b2,b3,z]) == 6:
                     v = ctx.re(v)
-                return v
             except ctx.NoConvergence:
-                pass
+                v = None
         finally:
             ctx.prec = orig
+        if v is not None:
+            return +v
 
     return ctx.hypsum(2, 3, (a1type, a2type, b1type, b2type, b3type), [a1, a2, b1, b2, b3], z, **kwargs)
 
